@@ -197,6 +197,35 @@ def shard_include(shard):
     return st.result([drv])
 
 
+def shard_odd(shard):
+    """every subset of nine option flags on every option kind, meaningful or not: whatever such a schema makes of a text, cfg_free
+    releases all of it"""
+    import check_C02 as c02
+    items, deadline = shard
+    drv = get_driver('asan')
+    st = ShardStats('odd flag combinations')
+    for (kind, mask) in items:
+        sch = c02.odd_schema(kind, mask)
+        FAM['ODD'] = sch
+        drv.define_schema('ODD', sch.spec())
+        cases = []
+        for fl in (0, CFGF['COMMENTS'], CFGF['IGNORE_UNKNOWN']):
+            for t in c02.ODD_TEXTS:
+                cases.append(make_case('ODD', fl, t, path=bool(fl)))
+                if fl == 0:
+                    cases.append(Case(['init A ODD 0', 'cb_quiet 1', 'parse_buf A ' + enc(t), 'parse_buf A ' + enc(t), 'print A', 'free A']))
+        for c, r in zip(cases, drv.run(cases)):
+            judge(st, 'ODD', c, r, 'odd')
+            st.transitions += 1
+        st.nontriv('%s/%d' % (kind, mask))
+        if time.time() > deadline:
+            st.complete = False
+            break
+    if not st.samples:
+        st.samples.append({'option_kinds': list(c02.ODD_KINDS), 'flag_letters': c02.ODD_FLAGS, 'texts': len(c02.ODD_TEXTS)})
+    return st.result([drv])
+
+
 def main():
     ck = engine.Check(PID)
     if ck.replay:
@@ -218,6 +247,10 @@ def main():
                 for ch in engine.chunks(frontier, 4):
                     shards.append((sid, flags, path, NN, ch, dl))
         engine.phase(ck, 'E1 N=%d (every viable prefix = a cut, every dead token = a corruption)' % N, shard_e1, shards, schemas=len(USE))
+    import check_C02 as c02
+    odd = [(k, m) for k in c02.ODD_KINDS for m in range(1 << len(c02.ODD_FLAGS))]
+    engine.phase(ck, 'every subset of 9 option flags on every option kind (meaningful or not) x 3 context flag sets x %d texts, each also parsed twice' % len(c02.ODD_TEXTS),
+                 shard_odd, [(list(c), dl) for c in engine.chunks(odd, 28)], schemas=len(odd))
     sch = FAM['I1']
     alpha = [w for w in S.alphabet_for(sch) if w not in ('include', '(', ')')]
     for N in ([3, 4] if quick else [4, 5]):
